@@ -356,6 +356,9 @@ func c14BowlSessions(env *Env, c *C14Case, old, nw []byte) {
 		return
 	}
 	a := r.Intn(len(nw))
+	if r.Intn(4) == 0 {
+		a = 0 // the checkpoint is taken before the first byte of the entry is written
+	}
 	if _, err := w1.Write(nw[:a]); err != nil {
 		fail("error", err.Error())
 		return
